@@ -57,3 +57,143 @@ example : WF exCont = true ∧ continuous exCont = true ∧ maxArity exCont ≤ 
 example : WF exGap = true ∧ continuous exGap = false ∧ maxArity exGap ≤ 2 := by decide +kernel
 example : WF exOne = true ∧ continuous exOne = true := by decide +kernel
 example : WF exTop = true ∧ continuous exTop = true ∧ maxArity exTop = 3 := by decide +kernel
+
+/-! ## textual form -/
+
+/-- round trip of the textual form of a transition (labels are arbitrary strings) -/
+theorem parseAction_toStr_shift : parseAction Action.shift.toStr = some .shift := by decide
+theorem parseAction_toStr_unary (l : Str) : parseAction (Action.unary l).toStr = some (.unary l) := by
+  rw [toStr_unary, parseAction_def]; simp
+theorem parseAction_toStr_binary (b : Bool) (l : Str) : parseAction (Action.binary b l).toStr = some (.binary b l) := by
+  cases b
+  · rw [toStr_binary_f, parseAction_def]; simp
+  · rw [toStr_binary_t, parseAction_def]; simp
+theorem parseAction_toStr_pj (l : Str) : parseAction (Action.pj l).toStr = some (.pj l) := by
+  rw [toStr_pj, parseAction_def]; simp
+theorem parseAction_toStr_r (b : Bool) (l : Str) : parseAction (Action.r b l).toStr = some (.r b l) := by
+  cases b
+  · rw [toStr_r_f, parseAction_def]; simp
+  · rw [toStr_r_t, parseAction_def]; simp
+
+/-- the two remaining constructors, for completeness -/
+theorem parseAction_toStr_reduce : parseAction Action.reduce.toStr = some .reduce := by decide
+theorem parseAction_toStr_gap : parseAction Action.gap.toStr = some .gap := by decide
+
+/-- hence every transition survives writing and reading back -/
+theorem parseAction_toStr (a : Action) : parseAction a.toStr = some a := by
+  cases a with
+  | shift => exact parseAction_toStr_shift
+  | unary l => exact parseAction_toStr_unary l
+  | binary b l => exact parseAction_toStr_binary b l
+  | pj l => exact parseAction_toStr_pj l
+  | reduce => exact parseAction_toStr_reduce
+  | gap => exact parseAction_toStr_gap
+  | r b l => exact parseAction_toStr_r b l
+
+example : (Action.binary false "@S-HD".toList).toStr = "BINARY-RIGHT-@S-HD".toList := by decide +kernel
+example : parseAction "R-LEFT-REDUCE".toList = some (.r true "REDUCE".toList) := by decide +kernel
+
+/-- the written line is `words ||| transitions` (or POS tags) -/
+theorem plainLine_shape (pos : Bool) (t : Tree) (acts : List Action) :
+    plainLine pos t acts =
+      joinWith [' '] (t.terminals.map fun l => if pos then l.fields.label else l.fields.word.getD []) ++
+      " ||| ".toList ++ joinWith [' '] (acts.map Action.toStr) := rfl
+
+example : plainLine false exOne [.shift, .unary "NP".toList] = "rain ||| SHIFT UNARY-NP".toList := by decide +kernel
+example : plainLine true exOne [.shift] = "NN ||| SHIFT".toList := by decide +kernel
+
+/-! ## counting -/
+
+/-- one transition per node -/
+theorem topdown_length (t : Tree) (acts : List Action) (h : topdown t = .ok acts) : acts.length = t.preorder.length := by
+  unfold topdown at h
+  cases hm : t.preorder.mapM topdownAct with
+  | error e => rw [hm] at h; cases h
+  | ok r =>
+    rw [hm] at h
+    cases h
+    simp [mapM_ok_length _ _ _ hm]
+
+example : (match topdown exCont with | .ok acts => acts.length | .error _ => 0) = 19 ∧ exCont.preorder.length = 19 := by
+  decide +kernel
+
+theorem inorder_counts (t : Tree) (h : t.noEmpty = true) (hn : t.isLeaf = false) :
+    ((inorder t).filter (· == .shift)).length = t.leafNums.length ∧
+    ((inorder t).filter (· == .reduce)).length = (t.subtrees.filter (fun s => !s.isLeaf)).length := by
+  have _ := hn
+  have := inorder_counts_aux t h
+  simpa only [inorder, List.countP_eq_length_filter] using this
+
+/-- `hn` is not needed; kept because the statement was given with it -/
+theorem inorder_counts' (t : Tree) (h : t.noEmpty = true) :
+    ((inorder t).filter (· == .shift)).length = t.leafNums.length ∧
+    ((inorder t).filter (· == .reduce)).length = (t.subtrees.filter (fun s => !s.isLeaf)).length := by
+  have := inorder_counts_aux t h
+  simpa only [inorder, List.countP_eq_length_filter] using this
+
+example : exTop.noEmpty = true ∧ exTop.isLeaf = false ∧ (inorder exTop).length = 12 := by decide +kernel
+
+/-! ## T2 in-order -/
+
+/-- T2: in-order sequences of a continuous tree of any arity replay to the tree -/
+theorem inorder_replays (t : Tree) (hwf : WF t = true) (hc : continuous t = true) :
+    ∃ r, replayInorder t (inorder t) = some r ∧ agrees t r = true := by
+  obtain ⟨r, hr, hrel⟩ := io_run t (Good_of_WF t hwf hc) [] []
+  refine ⟨r, ?_, hrel.agrees⟩
+  rw [List.append_nil] at hr
+  simp only [replayInorder, inorder, hr]
+
+/-- the general form behind T2: on any stack and any buffer suffix, the sequence of a subtree consumes exactly
+    the subtree's tokens and pushes one item that agrees with it -/
+theorem inorder_run (s : Tree) (hne : s.noEmpty = true) (hn : s.leafNums.Nodup) (hc : continuous s = true)
+    (stack : List Item) (rest : List Tree) :
+    ∃ r, (inorderAux s).foldlM ioStep (stack, tokenLeaves s ++ rest) = some (Item.tree r :: stack, rest) ∧
+      agrees s r = true :=
+  let ⟨r, h, hrel⟩ := io_run s ⟨hne, hn, hc⟩ stack rest
+  ⟨r, h, hrel.agrees⟩
+
+example : (replayInorder exTop (inorder exTop)).map (agrees exTop) = some true := by decide +kernel
+example : (replayInorder exCont (inorder exCont)).map (agrees exCont) = some true := by decide +kernel
+example : (replayInorder exOne (inorder exOne)).map (agrees exOne) = some true := by decide +kernel
+example : inorder exOne = [.shift, .pj "NP".toList, .reduce, .pj "TOP".toList, .reduce] := by decide +kernel
+/-- continuity cannot be dropped: the in-order sequence of the discontinuous tree replays to a different tree -/
+example : (replayInorder exGap (inorder exGap)).map (agrees exGap) = some false := by decide +kernel
+
+/-! ## T1 top-down -/
+
+/-- T1: top-down sequences of a continuous, at most binary, head-marked tree replay to the tree -/
+theorem topdown_replays (t : Tree) (hwf : WF t = true) (hc : continuous t = true) (hb : maxArity t ≤ 2)
+    (hh : ∀ s ∈ t.subtrees, ∀ f a b, s = node f [a, b] → a.fields.head.isSome ∧ b.fields.head.isSome) :
+    ∃ acts r, topdown t = .ok acts ∧ replayTopdown t acts = some r ∧ agrees t r = true := by
+  obtain ⟨acts, r, hm, hr, hrel⟩ := td_run t (Good_of_WF t hwf hc) hb (HeadsOK_of t hh) [] []
+  refine ⟨acts.reverse, r, ?_, ?_, hrel.agrees⟩
+  · simp only [topdown, hm]; rfl
+  · rw [List.append_nil] at hr
+    simp only [replayTopdown, hr]
+
+/-- the head hypothesis in decidable form -/
+def headsMarked (t : Tree) : Bool :=
+  t.subtrees.all fun s => match s with
+    | node _ [a, b] => a.fields.head.isSome && b.fields.head.isSome
+    | _ => true
+
+theorem headsMarked_spec (t : Tree) (h : headsMarked t = true) :
+    ∀ s ∈ t.subtrees, ∀ f a b, s = node f [a, b] → a.fields.head.isSome ∧ b.fields.head.isSome := by
+  intro s hs f a b he
+  simp only [headsMarked, List.all_eq_true] at h
+  have := h s hs
+  subst he
+  simpa using this
+
+example : headsMarked exCont = true ∧ headsMarked exOne = true := by decide +kernel
+/-- the golden sequence of the suite -/
+example : (topdown exCont).toOption = some [.shift, .shift, .unary "VP".toList, .shift, .unary "NP".toList, .shift,
+    .binary true "@SBAR".toList, .binary true "SBAR".toList, .shift, .shift, .binary true "@VP".toList,
+    .binary true "VP".toList, .shift, .shift, .shift, .binary true "@S".toList, .binary true "@S".toList,
+    .binary true "S".toList, .binary true "VROOT".toList] := by decide +kernel
+example : (match topdown exCont with | .ok acts => (replayTopdown exCont acts).map (agrees exCont) | .error _ => none)
+    = some true := by decide +kernel
+example : (match topdown exOne with | .ok acts => (replayTopdown exOne acts).map (agrees exOne) | .error _ => none)
+    = some true := by decide +kernel
+/-- arity above two is rejected by the oracle itself -/
+example : (match topdown exTop with | .error .valueError => true | _ => false) = true := by decide +kernel
